@@ -91,6 +91,11 @@ def ev_geo(case, rec):
         rec.state((case['ell'], case['prj'], d['zone'], float(lat2).hex(), float(lon2).hex()))
         rec.nontriv((case['ell'], case['prj'], case['zone'], lat, d['lon'], case.get('kind')))
         dlat, dlon = abs(lat2 - d['latf']), abs(lon2 - d['lonf'])
+        if dlon > 180.0:
+            # an explicit zone across the 180-degree meridian: the inverse reports the longitude continuously from its central
+            # meridian (zone 1: -183 for +177). The position is the same; the round trip is judged modulo 360 degrees.
+            dlon = abs((lon2 - d['lonf'] + 180.0) % 360.0 - 180.0)
+            rec.outcome('lon-mod-360')
         rec.dev('lat_deg', dlat, one)
         q = quantum_deg(case['ell'], d['latf'], d['o_k'])
         rec.dev('lon_deg_minus_quantum', dlon - q, one)
